@@ -65,13 +65,22 @@ def _src_of(x):
 
 
 def rules(ctx):
-    obs = []
+    """The role rules are implied by the whole-function contracts of solve() / select(): they are evaluated on the code's term
+    AND on the reference's term (where they must hold), and a shape the rules do not recognise in code that is proven
+    equivalent to its reference is settled by that equivalence (Ctx.settle_roles)."""
     P = ctx.program
+    obs = []
+    for q, fn in ((SOLVE, solve_rules), (SELECT, select_rules)):
+        code = fn(T.norm(T.FuncLower(P, P.func(q)).term()), ctx.loc(q))
+        ref = fn(ctx.ref_term(q), ctx.loc(q))
+        obs += ctx.settle_roles("C15", q, code, ref)
+    return obs
+
+
+def solve_rules(t, where):
+    obs = []
     # --- solve(): custom solver branch
-    fi = P.func(SOLVE)
-    t = T.norm(T.FuncLower(P, fi).term())
     calls = find_calls(t, lambda x: x[0] == 'call' and x[1] == T.V('solver'))
-    where = ctx.loc(SOLVE)
     if not calls:
         obs.append(Ob("E4.solve.call", "E4.index-space", where, "inconclusive", "no call of the user solver found in solve()"))
     for c, ul, at, it in calls:
@@ -100,10 +109,12 @@ def rules(ctx):
                       "solution zipped with polyhedron.A.variables (ASPACE, same polyhedron)" if okz else
                       f"solution is paired with {[T.show(z[1][0])[:100] for z in zips]} instead of the A.variables of the solver's polyhedron",
                       key="E4:solve:pairing"))
+    return obs
+
+
+def select_rules(t, where):
+    obs = []
     # --- select(): eager solver call inside try; FULL polyhedron; pairing
-    fi = P.func(SELECT)
-    t = T.norm(T.FuncLower(P, fi).term())
-    where = ctx.loc(SELECT)
     calls = find_calls(t, lambda x: x[0] == 'call' and x[1] == T.V('solver'))
     if not calls:
         obs.append(Ob("E4.select.call", "E4.index-space", where, "inconclusive", "no call of the user solver found in select()"))
